@@ -425,3 +425,175 @@ def c15_cases(tier):
         add('struct_name/%s/twin' % shape, e_priv, ['pub fn probe() { let _: Walk = E::iter(); let _: Labels = E::names(); }'], 'accept')
         add('struct_name-default-gone/%s' % shape, e_priv, ['pub fn probe() { let _: EIter = E::iter(); }'], 'reject')
     return out
+
+# ------------------------------------------------------------------------------------------------ mutations of random supported instances
+def _base(rr, max_n=12):
+    """a random supported (declaration, configuration) at module level, small enough to read in a report"""
+    from . import instances as I
+    while True:
+        d, c = I.random_instance(rr)
+        if d['n'] <= max_n and not d.get('context') and 'MOD' not in (d['vis'] or ''):
+            c = dict(c); c['features'] = [(f, dict(p)) for f, p in c['features']]
+            return d, c
+
+def mixed_c13(n, seed):
+    """one malformation of the configuration of a random supported instance: must be rejected by the derive;
+    every 8th case is the unmutated base and must compile"""
+    import random
+    from . import decls as D
+    rr = random.Random(seed * 104729 + 13)
+    out = []
+    muts = ['unknown-param', 'unknown-valued-param', 'dup-feature', 'dup-feature-other-attr', 'bogus-mode', 'dup-param', 'unknown-feature', 'vis-outside', 'sibling-param',
+            'range-without-iter', 'range-table_inline', 'iter-range-on-holes', 'variant-attr']
+    k = 0
+    while len(out) < n:
+        d, c = _base(rr)
+        k += 1
+        feats = c['features']
+        real = [i for i, (f, p) in enumerate(feats) if f != 'sorted']
+        if not real:
+            continue
+        if k % 8 == 0:
+            out.append(case('c13_mix_%04d' % k, 'C13', 'mix/twin', D.render_enum(d, c), 'accept')); continue
+        m = rr.choice(muts)
+        i = rr.choice(real)
+        f, p = feats[i]
+        extra_attr = None
+        if m == 'unknown-param':
+            p['bogus'] = True
+        elif m == 'unknown-valued-param':
+            p['bogus'] = 'x'
+        elif m == 'dup-feature':
+            feats.insert(rr.randrange(len(feats) + 1), (f, {}))
+        elif m == 'dup-feature-other-attr':
+            extra_attr = '#[enum_tools(%s)]' % f
+        elif m == 'bogus-mode':
+            cand = [j for j in real if feats[j][0] in D.MODED]
+            if not cand:
+                continue
+            feats[rr.choice(cand)][1]['mode'] = rr.choice(['bogus', '', 'Table', 'MATCH', 'auto ', 'range '])
+        elif m == 'dup-param':
+            cand = [j for j in real if feats[j][1]]
+            if not cand:
+                continue
+            j = rr.choice(cand); key = rr.choice(sorted(feats[j][1]))
+            extra_attr = ('dup', j, key)
+        elif m == 'unknown-feature':
+            feats.insert(rr.randrange(len(feats) + 1), (rr.choice(['bogus', 'Iter', 'as_Str', 'min', 'table_name', 'table_enum', 'table_range', 'rename']), {}))
+        elif m == 'vis-outside':
+            cand = [j for j in real if feats[j][0] in D.HAS_NAME_VIS]
+            if not cand:
+                continue
+            feats[rr.choice(cand)][1]['vis'] = rr.choice(['pub(super)', 'pub(self)', 'pub(in crate)', 'crate', 'pub ', 'private', 'PUB'])
+        elif m == 'sibling-param':
+            cand = [(j, pn) for j in real for pn in ('name', 'vis', 'mode', 'struct_name')
+                    if not ((pn in ('name', 'vis') and feats[j][0] in D.HAS_NAME_VIS) or (pn == 'mode' and feats[j][0] in D.MODED) or (pn == 'struct_name' and feats[j][0] in D.HAS_STRUCT_NAME))]
+            if not cand:
+                continue
+            j, pn = rr.choice(cand)
+            feats[j][1][pn] = {'name': 'a', 'vis': 'pub', 'mode': 'auto', 'struct_name': 'S'}[pn]
+        elif m == 'range-without-iter':
+            fs = [x for x in feats if x[0] not in ('iter', 'range')]
+            feats[:] = fs + [('range', {})]
+        elif m == 'range-table_inline':
+            fs = [x for x in feats if x[0] not in ('iter', 'range')]
+            feats[:] = fs + [('iter', {'mode': 'table_inline'}), ('range', {})]
+            rr.shuffle(feats)
+        elif m == 'iter-range-on-holes':
+            if d['gapless']:
+                continue
+            fs = [x for x in feats if x[0] != 'iter']
+            feats[:] = fs + [('iter', {'mode': 'range'})]
+        elif m == 'variant-attr':
+            v = rr.choice(d['variants'])
+            v['attrs'] = list(v.get('attrs', [])) + [rr.choice(['#[enum_tools(skip)]', '#[enum_tools(rename = 5)]', '#[enum_tools]', '#[enum_tools(rename)]', '#[enum_tools(name = "x")]', '#[enum_tools = "x"]', '#[enum_tools(rename = "a", rename = "b")]'])]
+        lines = D.render_enum(d, c)
+        if isinstance(extra_attr, str):
+            at = max(i for i, l in enumerate(lines) if l.startswith('#[')) + 1
+            lines.insert(at, extra_attr)
+        elif isinstance(extra_attr, tuple):
+            # repeat one parameter inside its feature's parameter list
+            _, j, key = extra_attr
+            fj, pj = feats[j]
+            val = pj[key]
+            one = key if val is True else '%s = %s' % (key, D.rust_str(val))
+            old = '%s(' % fj
+            done = False
+            for li, l in enumerate(lines):
+                if l.startswith('#[enum_tools(') and (old + one) in l or (old in l and one in l and not done):
+                    pos = l.find(old)
+                    if pos >= 0:
+                        lines[li] = l[:pos + len(old)] + one + ', ' + l[pos + len(old):]; done = True; break
+            if not done:
+                continue
+        out.append(case('c13_mix_%04d' % k, 'C13', 'mix/' + m, lines, 'reject', 'derive', note='random supported instance with one malformation'))
+    return out
+
+def mixed_c12(n, seed):
+    import random
+    from . import decls as D
+    rr = random.Random(seed * 15485863 + 12)
+    out = []
+    muts = ['expr', 'field', 'no-repr', 'dup-repr', 'repr-C', 'above-i64', 'below-i64', 'struct', 'no-attr-expr']
+    EXPRS = ['K', '1 + 1', '(7)', '7 as $R', '- -7', '-(7)', '!0', '{ 7 }', 'f()', 'seven!()', 'if true { 7 } else { 8 }', 'const { 7 }', "b'a'", '7 << 1', 'i8::MAX as $R', '$R::MAX', '0 + 7']
+    k = 0
+    while len(out) < n:
+        d, c = _base(rr, max_n=6)
+        k += 1
+        if k % 8 == 0:
+            out.append(case('c12_mix_%04d' % k, 'C12', 'mix/twin', D.render_enum(d, c), 'accept')); continue
+        m = rr.choice(muts)
+        pre = ['pub const K: %s = 7;' % d['repr'], 'pub const fn f() -> %s { 7 }' % d['repr'], 'macro_rules! seven { () => { 7 } }']
+        owner = 'derive'
+        v = rr.choice(d['variants'])
+        if m in ('expr', 'no-attr-expr'):
+            v['lit'] = rr.choice(EXPRS).replace('$R', d['repr'])
+            if v['lit'] == "b'a'":
+                owner = 'any'
+            if m == 'no-attr-expr':
+                c = dict(c); c['features'] = []
+        elif m == 'field':
+            v['ident'] = v['ident'] + rr.choice(['(u8)', ' { x: u8 }', '()', ' {}'])
+        elif m == 'above-i64':
+            if D.repr_bits(d['repr']) < 64 or (D.repr_bits(d['repr']) == 64 and D.repr_signed(d['repr'])):
+                continue
+            v['lit'] = rr.choice(['9223372036854775808', '0x8000_0000_0000_0000', '18446744073709551615'])
+        elif m == 'below-i64':
+            if d['repr'] != 'i128':
+                continue
+            v['lit'] = '-9223372036854775809'
+        lines = D.render_enum(d, c)
+        if m == 'no-repr':
+            lines = [l for l in lines if not l.startswith('#[repr(')]
+        elif m == 'dup-repr':
+            i = next(i for i, l in enumerate(lines) if l.startswith('#[repr('))
+            lines.insert(i, lines[i]); owner = 'any'
+        elif m == 'repr-C':
+            lines = [('#[repr(C)]' if l.startswith('#[repr(') else l) for l in lines]
+        elif m == 'struct':
+            i = next(i for i, l in enumerate(lines) if ' enum ' in l or l.startswith('enum '))
+            lines = [l for l in lines[:i] if not l.startswith('#[repr(')] + [rr.choice(['pub struct S { x: u8 }', 'pub struct S(u8);', 'pub struct S;', '#[repr(C)] pub union U { x: u8, y: u16 }'])]
+        out.append(case('c12_mix_%04d' % k, 'C12', 'mix/' + m, pre + lines, 'reject', owner, note='random supported instance with one out-of-domain change'))
+    return out
+
+def mixed_c14(n, seed):
+    """random small declarations under random sorted configurations; oracle = sortedness of the declaration order"""
+    import random
+    from . import decls as D
+    rr = random.Random(seed * 32452843 + 14)
+    out = []
+    k = 0
+    while len(out) < n:
+        d, c = _base(rr, max_n=7)
+        k += 1
+        c = dict(c); c['features'] = [(f, p) for f, p in c['features'] if f != 'sorted']
+        decl_vals = [v['value'] for v in d['variants']]
+        nm = [D.decl_name(d, v).encode('utf8') for v in d['variants']]
+        by_value = all(a < b for a, b in zip(decl_vals, decl_vals[1:]))
+        by_name = all(a < b for a, b in zip(nm, nm[1:]))
+        sp, ok = rr.choice([({'value': True}, by_value), ({'name': True}, by_name), ({'name': True, 'value': True}, by_name and by_value), ({'value': True, 'name': True}, by_name and by_value), ({}, True)])
+        c['features'] = c['features'] + [('sorted', sp)]
+        rr.shuffle(c['features'])
+        out.append(case('c14_mix_%04d' % k, 'C14', 'mix/sorted(%s)/%s' % (','.join(sp), 'sorted' if ok else 'unsorted'), D.render_enum(d, c), 'accept' if ok else 'reject', 'derive',
+                        note='by_value=%s by_name=%s' % (by_value, by_name)))
+    return out
